@@ -120,6 +120,7 @@ func checkC19(c *Ctx, r *Report) {
 	r.OK("C19.a", "WHO-MAY-CALL", "repo/file-creating-call-sites", "-", fmt.Sprintf("%d functions contain file-creating calls: the generator entry points and Graph.SaveGraph only", len(perFunc)))
 
 	c19ErrorsAbort(c, r)
+	c19ParserErrorDiscipline(c, r, "C19.c")
 	st := c.GetStaged()
 	stagedErrors(r, "C19", st)
 	for _, e := range entries {
@@ -408,4 +409,163 @@ func c19Entry(c *Ctx, r *Report, e *FuncRef, st *Staged) {
 			"WriteFile only parses the embedded template (checked to parse) and executes it on string/int/bool fields",
 			"WriteFile calls "+why+" after the output file has been created")
 	}
+}
+
+// c19ParserErrorDiscipline — an error the grammar-file parser detects must not end as a successful generation
+// (C19: "if it succeeds, the output file is complete"). The parser records errors with p.error(…) and signals failure
+// to Parse by returning nil; Parse turns that into an error through the kind of the current token (not Section / not
+// EOF). After a lexical error the lexer stops, so every later token is EOF: if the offending token is stepped over,
+// Parse sees a clean end of input and reports success for a truncated grammar (no later rules, no epilogue).
+//
+// Rule (error discipline, idioms enumerated from the code): every call of (*parser).error is either directly followed
+// by `return nil` in a function whose nil result Parse / the rule loop treats as failure, or sits at one of the tabled
+// lenient sites of the DECLARATION section, where stepping on cannot end in success because the `%%` separator can no
+// longer arrive (Parse's Section test rejects). The rules section has exactly one lenient site: expect(), which does
+// not consume the offending token.
+func c19ParserErrorDiscipline(c *Ctx, r *Report, clause string) {
+	lenient := map[string]string{
+		"Parser.(*parser).expect":           "does not consume the token it complains about; the caller goes on with the same token",
+		"Parser.(*parser).parseTypeList":    "declaration section only: a missing tag / empty list is recorded, the `%%` test in Parse decides",
+		"Parser.(*parser).parseStartSymbol": "declaration section only",
+	}
+	declOnly := map[string]bool{"Parser.(*parser).parseTypeList": true, "Parser.(*parser).parseStartSymbol": true}
+	var bad []string
+	nAbort, nLenient := 0, 0
+	var errFn *types.Func
+	for _, f := range c.AllFuncs() {
+		if f.Pkg.Types.Name() != "parser" {
+			continue
+		}
+		info := f.Pkg.TypesInfo
+		pm := parentMap(f.Decl.Body)
+		ast.Inspect(f.Decl.Body, func(n ast.Node) bool {
+			call, ok := n.(*ast.CallExpr)
+			if !ok {
+				return true
+			}
+			fn := callee(info, call)
+			if fn == nil || fn.Name() != "error" || recvNamed(fn) != "parser" {
+				return true
+			}
+			errFn = fn
+			// the statement after the call in its block
+			var stmt ast.Stmt
+			for cur := ast.Node(call); cur != nil; cur = pm[cur] {
+				if st, isS := cur.(ast.Stmt); isS {
+					if _, inBlock := pm[cur].(*ast.BlockStmt); inBlock {
+						stmt = st
+						break
+					}
+				}
+			}
+			aborts := false
+			if blk, _ := pm[stmt].(*ast.BlockStmt); blk != nil {
+				for i, st := range blk.List {
+					if st == stmt && i+1 < len(blk.List) {
+						if rt, isR := blk.List[i+1].(*ast.ReturnStmt); isR && len(rt.Results) == 1 {
+							if id, isI := unparen(rt.Results[0]).(*ast.Ident); isI && id.Name == "nil" {
+								aborts = true
+							}
+						}
+					}
+				}
+			}
+			switch {
+			case aborts:
+				nAbort++
+			case lenient[f.Name] != "":
+				nLenient++
+			default:
+				bad = append(bad, fmt.Sprintf("%s at %s records an error and goes on: the offending token can be stepped over and the run end as a success", f.Name, c.pos(call.Pos())))
+			}
+			return true
+		})
+	}
+	// the declaration-only lenient functions are not reachable from parseRule
+	if pr := c.Func("Parser", "parser", "parseRule"); pr != nil {
+		seen := map[string]bool{}
+		var walk func(f *FuncRef)
+		walk = func(f *FuncRef) {
+			if seen[f.Name] {
+				return
+			}
+			seen[f.Name] = true
+			ast.Inspect(f.Decl.Body, func(n ast.Node) bool {
+				if call, ok := n.(*ast.CallExpr); ok {
+					if fn := callee(f.Pkg.TypesInfo, call); fn != nil {
+						if g := c.FuncOf(fn); g != nil {
+							walk(g)
+						}
+					}
+				}
+				return true
+			})
+		}
+		walk(pr)
+		for name := range declOnly {
+			if seen[name] {
+				bad = append(bad, name+" (lenient about errors, tabled as declaration-section only) is reachable from parseRule")
+			}
+		}
+	} else {
+		bad = append(bad, "Parser.(*parser).parseRule not found")
+	}
+	// Parse turns a nil from the rule loop into an error through the current token's kind
+	if f := c.Func("Parser", "", "Parse"); f != nil {
+		info := f.Pkg.TypesInfo
+		tests := 0
+		for _, st := range f.Decl.Body.List {
+			is, ok := st.(*ast.IfStmt)
+			if !ok || !endsInExit(is.Body) {
+				continue
+			}
+			mentions := func(kind string) bool {
+				found := false
+				ast.Inspect(is.Cond, func(n ast.Node) bool {
+					if call, ok := n.(*ast.CallExpr); ok && len(call.Args) >= 1 {
+						if fn := callee(info, call); fn != nil && fn.Name() == "Is" {
+							if kv, ok := constString(info, call.Args[0]); ok && kv == kindConsts(c)[kind] {
+								found = true
+							}
+						}
+					}
+					return true
+				})
+				return found
+			}
+			if mentions("Section") && strings.HasPrefix(strings.TrimSpace(exprString(is.Cond)), "!") {
+				tests++
+			}
+		}
+		if tests < 2 {
+			bad = append(bad, fmt.Sprintf("Parse has %d `if !current.Is(Section)… { return error }` tests, expected one after the declarations and one after the rules", tests))
+		}
+	} else {
+		bad = append(bad, "Parser.Parse not found")
+	}
+	_ = errFn
+	sortStrings(bad)
+	key := "Parser/a-recorded-error-stops-the-parse"
+	if nAbort < 2 && len(bad) == 0 {
+		r.Undecided(clause, "R7 ERROR-DISCIPLINE", key, "Parser/Parser.go", fmt.Sprintf("only %d aborting p.error sites found (2 confirmed by hand)", nAbort))
+		return
+	}
+	r.Check(len(bad) == 0, clause, "R7 ERROR-DISCIPLINE", key, "Parser/Parser.go",
+		fmt.Sprintf("%d p.error sites are followed by `return nil`, %d sit at the tabled lenient sites (expect; declaration section); Parse rejects unless the rules end at %%%% or EOF", nAbort, nLenient),
+		strings.Join(bad, "; "))
+}
+
+func recvNamed(fn *types.Func) string {
+	sig, ok := fn.Type().(*types.Signature)
+	if !ok || sig.Recv() == nil {
+		return ""
+	}
+	t := sig.Recv().Type()
+	if p, ok := t.(*types.Pointer); ok {
+		t = p.Elem()
+	}
+	if n, ok := t.(*types.Named); ok {
+		return n.Obj().Name()
+	}
+	return ""
 }
